@@ -3,6 +3,7 @@
   `CategoricalData`, and the window cut of `sensor_to_categorical`.
 -/
 import KatdalModel.Lemmas.CatRule
+import KatdalModel.Lemmas.CatBasic
 open Np
 
 namespace Categorical
@@ -223,5 +224,202 @@ theorem fLoop_idx_lt (g : Nat → Bool) : ∀ (suf : List Nat) (ce lastD : Nat) 
       simp only [List.length_cons]; omega
     · have := ih (ce + 1) cd _ hstep.1 y hy
       simp only [List.length_cons]; omega
+
+/-! ### fancy indexing -/
+
+theorem takeIdx_getD {γ : Type} (l : List γ) (dflt : γ) : ∀ (idxs : List Nat), (∀ i ∈ idxs, i < l.length) →
+    takeIdx l idxs = .ok (idxs.map (fun i => l.getD i dflt)) := by
+  intro idxs
+  induction idxs with
+  | nil => intro _; rfl
+  | cons i t ih =>
+    intro h
+    have hi : i < l.length := h i (List.mem_cons_self ..)
+    simp only [takeIdx, getNat, List.getElem?_eq_getElem hi, bind, Except.bind,
+      ih (fun j hj => h j (List.mem_cons_of_mem _ hj)), pure, Except.pure, List.map_cons, List.getD,
+      Option.getD_some]
+
+theorem takeIdx_pairs {γ : Type} (l : List γ) : ∀ (ys : List (Nat × γ)), (∀ y ∈ ys, l[y.1]? = some y.2) →
+    takeIdx l (ys.map (·.1)) = .ok (ys.map (·.2)) := by
+  intro ys
+  induction ys with
+  | nil => intro _; rfl
+  | cons y t ih =>
+    intro h
+    simp only [List.map_cons, takeIdx, getNat, h y (List.mem_cons_self ..), bind, Except.bind,
+      ih (fun z hz => h z (List.mem_cons_of_mem _ hz)), pure, Except.pure]
+
+theorem getD_map_lt {γ δ : Type} (f : γ → δ) (l : List γ) (i : Nat) (d1 : δ) (d2 : γ) (h : i < l.length) :
+    (l.map f).getD i d1 = f (l.getD i d2) := by
+  simp [List.getD, List.getElem?_eq_getElem h]
+
+theorem zipIdx_map_getD {γ : Type} (dflt : γ) : ∀ (D : List Nat) (Vs pre : List γ), Vs.length = D.length →
+    (D.zipIdx pre.length).map (fun e => (e.1, (pre ++ Vs).getD e.2 dflt)) = D.zip Vs := by
+  intro D
+  induction D with
+  | nil => intro Vs pre _; simp
+  | cons d t ih =>
+    intro Vs pre h
+    cases Vs with
+    | nil => simp at h
+    | cons v Vt =>
+      simp only [List.zipIdx_cons, List.map_cons, List.zip_cons_cons]
+      congr 1
+      · simp [List.getD]
+      · have := ih Vt (pre ++ [v]) (by simpa using h)
+        simpa using this
+
+/-! ### the last part of `sensor_to_categorical` realises the one-pass rule -/
+
+variable {V : Type} [DecidableEq V]
+
+/-- no two neighbouring entries are equal -/
+def NoAdjacentRepeat (l : List V) : Prop := ∀ i x y, l[i]? = some x → l[i + 1]? = some y → x ≠ y
+
+theorem clean_core (N : Nat) (hN : 0 < N) (v0 : V) (Vs : List V) (d0 : Nat) (D : List Nat)
+    (hlen : Vs.length = D.length) (hD : D.Pairwise (· ≤ ·)) (hDN : ∀ d ∈ D, d < N)
+    (gvals : List V) (rep : Bool) :
+    ∃ (P : List (V × Nat)) (v : V) (Pt : List (V × Nat)),
+      s2cClean N (v0 :: Vs) (d0 :: D) gvals rep = .ok (Cat.new (P.map (·.1)) (P.map (·.2) ++ [N])) ∧
+      P = (v, 0) :: Pt ∧ (P.map (·.2)).Pairwise (· < ·) ∧ (∀ p ∈ P, p.2 < N) ∧
+      (rep = false → NoAdjacentRepeat (P.map (·.1))) ∧
+      ∀ cur, expandFrom N 0 cur P =
+        ruleS (fun x => gvals.contains x) N 0 (bestV (fun x => gvals.contains x) v0) v0 (D.zip Vs) := by
+  let gv : V → Bool := fun x => gvals.contains x
+  let greedy : List Bool := (v0 :: Vs).map gv
+  let g : Nat → Bool := fun i => greedy.getD i false
+  let val : Nat → V := fun i => (v0 :: Vs).getD i v0
+  have hlenG : greedy.length = (D ++ [N]).length := by simp [greedy, hlen]
+  obtain ⟨ev', hsepd, hev'⟩ := sepd_eq (D ++ [N]) greedy hlenG
+  let ys := fLoop g (D ++ [N]) 1 0 ⟨0, 0, 0⟩
+  have hinv : ∀ cur, Inv g ⟨0, 0, 0⟩ 0 cur := by
+    intro cur
+    by_cases h0 : g 0 = true
+    · left; simp [h0]
+    · right; right; simp at h0; simp [h0]
+  have hsorted0 : ((0 : Nat) :: D).Pairwise (· ≤ ·) := List.pairwise_cons.mpr ⟨fun _ _ => Nat.zero_le _, hD⟩
+  have hgterm : g (0 + 1 + D.length) = false := by
+    simp only [g, List.getD]
+    rw [List.getElem?_eq_none (by simp [greedy, hlen]; omega)]
+    rfl
+  have hB : ∀ cur, expandFrom N 0 cur ys = ruleS g N 0 (bestOf g ⟨0, 0, 0⟩) 0 (D.zipIdx 1) := by
+    intro cur
+    have := fLoop_rule g N D 0 ⟨0, 0, 0⟩ cur 0 (hinv cur) (Nat.le_refl _) hN hDN hsorted0 hgterm
+    simpa using this
+  obtain ⟨hS1, hS2⟩ := fLoop_sorted g N D 0 ⟨0, 0, 0⟩ 0 (hinv 0) hN hDN hsorted0
+  have hidx : ∀ y ∈ ys, y.1 < (v0 :: Vs).length := by
+    intro y hy
+    have := fLoop_idx_lt g (D ++ [N]) 1 0 ⟨0, 0, 0⟩ (by simp) y hy
+    simp only [List.length_append, List.length_cons, List.length_nil] at this ⊢
+    omega
+  -- the first yield is at dump 0
+  have hhead : ∃ i0 yt, ys = (i0, 0) :: yt := by
+    have h01 : expandFrom N 0 0 ys = expandFrom N 0 1 ys := by rw [hB 0, hB 1]
+    cases hys : ys with
+    | nil =>
+      rw [hys] at h01
+      simp only [expandFrom] at h01
+      cases N with
+      | zero => omega
+      | succ k => simp [List.replicate_succ] at h01
+    | cons y yt =>
+      obtain ⟨i0, d⟩ := y
+      rw [hys] at h01
+      simp only [expandFrom] at h01
+      cases d with
+      | zero => exact ⟨i0, yt, rfl⟩
+      | succ k => simp [List.replicate_succ] at h01
+  obtain ⟨i0, yt, hys⟩ := hhead
+  let YP : List (V × Nat) := ys.map (fun y => (val y.1, y.2))
+  have hYP : YP = (val i0, 0) :: yt.map (fun y => (val y.1, y.2)) := by simp [YP, hys]
+  have hYPsnd : YP.map (·.2) = ys.map (·.2) := by simp [YP]
+  -- evaluate the mirror
+  have hv6 : takeIdx (v0 :: Vs) (ys.map (·.1)) = .ok (ys.map (fun y => val y.1)) := by
+    have := takeIdx_getD (v0 :: Vs) v0 (ys.map (·.1)) (by
+      intro i hi
+      simp only [List.mem_map] at hi
+      obtain ⟨y, hy, rfl⟩ := hi
+      exact hidx y hy)
+    rw [this, List.map_map]
+    rfl
+  have he6 : takeIdx ev' (ys.map (·.1)) = .ok (ys.map (·.2)) := takeIdx_pairs ev' ys hev'
+  have hzip : List.zip (ys.map (fun y => val y.1)) (ys.map (·.2)) = YP := by
+    simp [YP, List.zip_map']
+  let P : List (V × Nat) := if rep = true then YP else keepChanges none YP
+  have hrun : s2cClean N (v0 :: Vs) (d0 :: D) gvals rep = .ok (Cat.new (P.map (·.1)) (P.map (·.2) ++ [N])) := by
+    simp only [s2cClean, List.set_cons_zero, List.cons_append]
+    have : sepd (0 :: (D ++ [N])) (List.map (fun v => gvals.contains v) (v0 :: Vs)) =
+        .ok (ys.map (·.1), ev') := hsepd
+    simp only [this, bind, Except.bind, hv6, he6, hzip, pure, Except.pure]
+    rfl
+  have hkc : keepChanges none YP = (val i0, 0) :: keepChanges (some (val i0)) (yt.map (fun y => (val y.1, y.2))) := by
+    rw [hYP]; simp [keepChanges]
+  have hsub : P.Sublist YP := by
+    simp only [P]
+    split
+    · exact List.Sublist.refl _
+    · exact keepChanges_sublist _ _
+  have hP : ∃ Pt, P = (val i0, 0) :: Pt := by
+    simp only [P]
+    split
+    · exact ⟨_, hYP⟩
+    · exact ⟨_, hkc⟩
+  obtain ⟨Pt, hPeq⟩ := hP
+  have hYPs : (YP.map (·.2)).Pairwise (· < ·) := by rw [hYPsnd]; exact hS1
+  have hYPN : ∀ p ∈ YP, p.2 < N := by
+    intro p hp
+    simp only [YP, List.mem_map] at hp
+    obtain ⟨y, hy, rfl⟩ := hp
+    exact (hS2 y hy).2
+  refine ⟨P, val i0, Pt, hrun, hPeq, List.Pairwise.sublist (List.Sublist.map _ hsub) hYPs,
+    fun p hp => hYPN p (hsub.subset hp), ?_, ?_⟩
+  · intro hrep
+    have : P = keepChanges none YP := by simp [P, hrep]
+    rw [this]
+    exact (keepChanges_no_repeat YP none).2
+  · intro cur
+    -- repeat removal does not change the expansion
+    have hPY : expandFrom N 0 cur P = expandFrom N 0 cur YP := by
+      simp only [P]
+      split
+      · rfl
+      · rw [hkc, hYP]
+        simp only [expandFrom]
+        congr 1
+        have hs : (0 :: (yt.map (fun y => (val y.1, y.2))).map (·.2)).Pairwise (· ≤ ·) := by
+          have h1 : (YP.map (·.2)).Pairwise (· ≤ ·) := hYPs.imp (fun h => Nat.le_of_lt h)
+          rw [hYP] at h1
+          simpa using h1
+        apply keepChanges_expand N _ 0 (val i0) hs
+        · intro p hp
+          have : p ∈ YP := by rw [hYP]; exact List.mem_cons_of_mem _ hp
+          exact Nat.le_of_lt (hYPN p this)
+        · omega
+    rw [hPY]
+    -- the open segment before the first yield is empty
+    have hcur : expandFrom N 0 cur YP = expandFrom N 0 (val 0) YP := by
+      rw [hYP]; simp [expandFrom]
+    rw [hcur]
+    have hmap : expandFrom N 0 (val 0) YP = (expandFrom N 0 0 ys).map val := by
+      rw [expandFrom_map]
+    rw [hmap, hB 0]
+    have hg0 : g 0 = gv (val 0) := by simp [g, greedy, val, List.getD]
+    have hgl : ∀ e ∈ D.zipIdx 1, g e.2 = gv (val e.2) := by
+      intro e he
+      have hlt : e.2 < (v0 :: Vs).length := by
+        have := List.mem_zipIdx he
+        simp only [List.length_cons]
+        omega
+      exact getD_map_lt gv (v0 :: Vs) e.2 false v0 hlt
+    rw [ruleS_map val g gv N (D.zipIdx 1) 0 _ 0 hg0 hgl]
+    have hz : (D.zipIdx 1).map (fun e => (e.1, val e.2)) = D.zip Vs := by
+      have := zipIdx_map_getD v0 D Vs [v0] hlen
+      simpa [val] using this
+    rw [hz]
+    have hv0 : val 0 = v0 := by simp [val, List.getD]
+    rw [hv0]
+    congr 1
+    simp only [bestOf, bestV, hg0, hv0]
+    split <;> simp [hv0]
 
 end Categorical
